@@ -33,6 +33,11 @@ Correspondence.  For every generated (schema version, document):
      continues on a copy of the context: finding C04-F5, whose repair is emulated in-process for the rest of the
      evaluation);  comment / PI nodes inserted into 9 % of all documents and run on the source kinds that keep them
      (lxml, ElementTree with insert_comments) and that drop them (findings C04-F6 / C04-F7).
+  8. what the ROOT element is (harness/lib_c04w.py root_cases), for every schema family: a declared global element
+     (each one), an undeclared name with xsi:type naming a complex / simple / builtin / abstract / unknown global
+     type with valid and invalid content, an undeclared name without xsi:type, a local-only element name (with and
+     without xsi:type), a root in an unknown namespace and in no namespace (with and without xsi:type): the
+     validation generator and the decoding generator each have their own look-up of the root declaration.
   7. nested namespace declarations.  Family Q (harness/lib_c04q.py): key / unique / keyref over xs:QName attributes,
      QName element content and lists of QNames, in documents where the prefix of the value is re-bound on the last
      child, a middle child, the last descendant, the selected element itself, a sibling (every field x every
@@ -212,7 +217,7 @@ def report(ctx: Ctx, what: str, case: dict, detail: Any) -> None:
 # --------------------------------------------------------------------------------------------
 # canonical forms
 
-PREFIX_RE = re.compile(r'\b(?:p|o|t|k|xsi|xs):(?=[A-Za-z_])')
+PREFIX_RE = re.compile(r'\b(?:p|o|t|k|zz|xsi|xs):(?=[A-Za-z_])')
 CLARK_RE = re.compile(r'\{[^}]*\}')
 ADDR_RE = re.compile(r' at 0x[0-9a-fA-F]+')
 
@@ -244,12 +249,18 @@ def canon_data(d: Any) -> Any:
     """Decoded data with names expanded through the document-wide prefix map and xmlns entries dropped."""
     if isinstance(d, dict):
         out = {}
+        dropped_xmlns = False
         for k, v in d.items():
             if isinstance(k, str):
                 if k.startswith('@xmlns'):
+                    dropped_xmlns = True
                     continue
                 k = canon_name(k)
             out[str(k)] = canon_data(v)
+        if dropped_xmlns and set(out) == {'$'}:
+            # a simple-content element whose only attributes are namespace declarations (a source without
+            # declarations, e.g. an ElementTree element, gives the bare value)
+            return out['$']
         return {k: out[k] for k in sorted(out)}
     if isinstance(d, (list, tuple)):
         return [canon_data(x) for x in d]
@@ -262,7 +273,7 @@ def canon_data(d: Any) -> Any:
     return '%s:%s' % (type(d).__name__, d)
 
 
-EXTRA_NSMAP = {'k': 'urn:k'}       # family W: the imported namespace
+EXTRA_NSMAP = {'k': 'urn:k', 'zz': 'urn:zz'}       # family W: the imported namespace
 
 
 def canon_name(k: str) -> str:
